@@ -306,3 +306,282 @@ Proof.
 Qed.
 
 End NetAgree.
+
+(* ---------------------------------------------------------------------- *)
+(* Joint-Feldman: the keys are those of the sum of the qualified dealers'   *)
+(* polynomials                                                             *)
+(* ---------------------------------------------------------------------- *)
+Local Transparent peval r.
+
+Lemma r_pos : 0 < r.
+Proof. reflexivity. Qed.
+
+Lemma peval_cons c a x : peval (c :: a) x = (c + x * peval a x) mod r.
+Proof. reflexivity. Qed.
+Lemma peval_nil x : peval [] x = 0.
+Proof. reflexivity. Qed.
+
+Local Opaque r.
+
+Lemma peval_range a x : 0 <= peval a x < r.
+Proof.
+  destruct a; [rewrite peval_nil; pose proof r_pos; lia|rewrite peval_cons; apply Z.mod_pos_bound; exact r_pos].
+Qed.
+
+Lemma peval_mod a x : peval a x mod r = peval a x.
+Proof. apply Z.mod_small. apply peval_range. Qed.
+
+(* coefficient-wise sum *)
+Fixpoint padd (a b : list Z) : list Z :=
+  match a, b with
+  | x :: a', y :: b' => (x + y) mod r :: padd a' b'
+  | _, _ => []
+  end.
+
+Lemma padd_length a b : length a = length b -> length (padd a b) = length a.
+Proof. revert b; induction a as [|x a IH]; intros [|y b] H; cbn in *; try lia. f_equal. apply IH. lia. Qed.
+
+Lemma peval_padd a b x : length a = length b ->
+  peval (padd a b) x = (peval a x + peval b x) mod r.
+Proof.
+  revert b; induction a as [|c a IH]; intros [|e b] H; cbn [padd length] in *; try lia.
+  - rewrite !peval_nil. reflexivity.
+  - rewrite !peval_cons. rewrite IH by lia.
+    pose proof r_pos as Hr.
+    assert (L : forall u v, (u mod r + v) mod r = (u + v) mod r) by (intros; apply Z.add_mod_idemp_l; lia).
+    assert (R : forall u v, (u + v mod r) mod r = (u + v) mod r) by (intros; apply Z.add_mod_idemp_r; lia).
+    assert (M : forall u v, (u * (v mod r)) mod r = (u * v) mod r) by (intros; apply Z.mul_mod_idemp_r; lia).
+    rewrite L. rewrite <- (R _ (x * _)). rewrite M. rewrite R.
+    rewrite (L (c + x * peval a x)). rewrite R.
+    f_equal. ring.
+Qed.
+
+Local Opaque peval.
+
+Definition pzero (t : nat) : list Z := repeat 0 (S t).
+
+Definition psum (t : nat) (ps : list (list Z)) : list Z := fold_left padd ps (pzero t).
+
+Lemma pzero_eval t x : peval (pzero t) x = 0.
+Proof.
+  unfold pzero. induction (S t) as [|k IH]; cbn [repeat]; [apply peval_nil|].
+  rewrite peval_cons, IH. rewrite Z.mul_0_r. reflexivity.
+Qed.
+
+Lemma fold_padd_length t ps acc : length acc = S t -> Forall (fun a => length a = S t) ps ->
+  length (fold_left padd ps acc) = S t.
+Proof.
+  revert acc; induction ps as [|a ps IH]; intros acc Ha Hps; cbn; [exact Ha|].
+  inversion Hps; subst. apply IH; auto. rewrite padd_length; congruence.
+Qed.
+
+Lemma psum_length t ps : Forall (fun a => length a = S t) ps -> length (psum t ps) = S t.
+Proof. intro H. apply fold_padd_length; auto. apply repeat_length. Qed.
+
+Lemma fold_padd_eval t ps x : forall acc, length acc = S t -> Forall (fun a => length a = S t) ps ->
+  peval (fold_left padd ps acc) x = fold_left (fun s z => (s + z) mod r) (map (fun a => peval a x) ps) (peval acc x).
+Proof.
+  induction ps as [|a ps IH]; intros acc Ha Hps; cbn; [reflexivity|].
+  inversion Hps; subst. rewrite IH; auto; [|rewrite padd_length; congruence].
+  rewrite peval_padd by congruence. reflexivity.
+Qed.
+
+(* the sum the code computes (Fr_sum_vector, E2_sum_vector_to_affine on discrete logs) is the
+   evaluation of the summed polynomial *)
+Lemma sum_mod_psum t ps x : Forall (fun a => length a = S t) ps ->
+  sum_mod (map (fun a => peval a x) ps) = peval (psum t ps) x.
+Proof.
+  intro H. unfold sum_mod, psum. rewrite (fold_padd_eval t ps x (pzero t)); auto; [|apply repeat_length].
+  rewrite pzero_eval. reflexivity.
+Qed.
+
+Section JointKeys.
+Variable cf : cfg.
+Let n := c_n cf.
+Let t := c_t cf.
+Let p := c_my cf.
+Hypothesis Hp : (p < n)%nat.
+
+(* a qualified instance as left by End: not disqualified, the dealer's vector a, the public
+   shares derived from it, and a private share that matches *)
+Definition inst_good (a : list Z) (q : qinst) : Prop :=
+  q_disq q = false /\ length a = S t /\ (exists a0 al, a = a0 :: al) /\
+  v_vA (q_v q) = VAFull a /\ v_y (q_v q) = Some (pubkeys cf a) /\
+  v_x (q_v q) = peval a (Z.of_nat p + 1).
+
+Definition inst_rel (q : qinst) (oa : option (list Z)) : Prop :=
+  match oa with Some a => inst_good a q | None => q_disq q = true end.
+
+Fixpoint somes {X} (l : list (option X)) : list X :=
+  match l with [] => [] | Some x :: l' => x :: somes l' | None :: l' => somes l' end.
+
+Lemma qualified_rel qs oas : Forall2 inst_rel qs oas ->
+  Forall2 (fun q a => inst_good a q) (qualified qs) (somes oas).
+Proof.
+  induction 1 as [|q oa qs oas Hr HF IH]; cbn; [constructor|].
+  destruct oa as [a|]; cbn in Hr.
+  - destruct Hr as (Hd & Hrest). rewrite Hd. cbn. constructor; [repeat split; auto; apply Hrest|exact IH].
+  - rewrite Hr. cbn. exact IH.
+Qed.
+
+Lemma opt_all_map_some {X Y} (f : X -> option Y) (g : X -> Y) l :
+  (forall x, In x l -> f x = Some (g x)) -> opt_all (map f l) = Some (map g l).
+Proof.
+  induction l as [|x l IH]; intro H; cbn; [reflexivity|].
+  rewrite (H x (or_introl eq_refl)), IH; [reflexivity|]. intros; apply H; right; assumption.
+Qed.
+
+Lemma Forall2_map_eq {X Y Z} (R : X -> Y -> Prop) (f : X -> Z) (g : Y -> Z) l l' :
+  Forall2 R l l' -> (forall x y, R x y -> f x = g y) -> map f l = map g l'.
+Proof. induction 1; intro H'; cbn; [reflexivity|]. rewrite (H' _ _ H), IHForall2; auto. Qed.
+
+Lemma sum_mod_mod_aux l : forall acc, fold_left (fun s z => (s + z) mod r) (map (fun z => z mod r) l) acc
+                                     = fold_left (fun s z => (s + z) mod r) l acc.
+Proof.
+  induction l as [|z l IH]; intro acc; cbn; [reflexivity|]. rewrite IH.
+  rewrite Z.add_mod_idemp_r by (pose proof r_pos; lia). reflexivity.
+Qed.
+
+Lemma peval_at_0 a0 al : peval (a0 :: al) 0 = a0 mod r.
+Proof. rewrite peval_cons. rewrite Z.mul_0_l, Z.add_0_r. reflexivity. Qed.
+
+(* C07 agreement_keys, algebraic core: the result of sumUpQualifiedKeys *)
+Theorem sum_up_is_sum_poly qs oas :
+  Forall2 inst_rel qs oas -> somes oas <> [] ->
+  let S := psum t (somes oas) in
+  sum_up cf qs = Some (peval S (Z.of_nat p + 1), peval S 0, pubkeys cf S) /\
+  length S = Datatypes.S t.
+Proof.
+  intros HR Hne S. pose proof (qualified_rel qs oas HR) as HQ.
+  set (ql := qualified qs) in *. set (ps := somes oas) in *.
+  assert (Hlen : Forall (fun a => length a = Datatypes.S t) ps).
+  { clear -HQ. induction HQ; constructor; auto. destruct H as (_ & Hl & _). exact Hl. }
+  split; [|apply psum_length; exact Hlen].
+  assert (Hql : ql <> []) by (intro E; rewrite E in HQ; inversion HQ; subst; congruence).
+  assert (Hm : forall (X : option (Z * Z * list Z)), (match ql with [] => None | _ :: _ => X end) = X)
+    by (intro X; destruct ql; [congruence|reflexivity]).
+  unfold sum_up. fold ql. rewrite Hm. clear Hm.
+  (* the group key *)
+  assert (E1 : opt_all (map vA0 ql) = Some (map (fun a => hd 0 a) ps)).
+  { clear -HQ. induction HQ as [|q a ql ps Hg HF IH]; cbn; [reflexivity|].
+    destruct Hg as (_ & _ & (a0 & al & ->) & EvA & _). unfold vA0 at 1. rewrite EvA, IH. reflexivity. }
+  (* the public shares *)
+  assert (E2 : opt_all (map (fun j => opt_all (map (yj j) ql)) (seq 0 (c_n cf)))
+               = Some (map (fun j => map (fun a => peval a (Z.of_nat j + 1)) ps) (seq 0 (c_n cf)))).
+  { apply opt_all_map_some. intros j Hj. apply in_seq in Hj.
+    clear -HQ Hj. induction HQ as [|q a ql ps Hg HF IH]; cbn; [reflexivity|].
+    destruct Hg as (_ & _ & _ & _ & Ey & _). unfold yj at 1. rewrite Ey.
+    rewrite (pubkeys_nth_error cf a j) by lia. rewrite IH. reflexivity. }
+  assert (E3 : map (fun q => v_x (q_v q)) ql = map (fun a => peval a (Z.of_nat p + 1)) ps).
+  { apply (Forall2_map_eq _ _ _ _ _ HQ). intros q a (_ & _ & _ & _ & _ & Ex). exact Ex. }
+  rewrite E1, E2, E3.
+  rewrite (sum_mod_psum t ps _ Hlen). f_equal. f_equal; [f_equal|].
+  - (* group key *)
+    unfold S. rewrite <- (sum_mod_psum t ps 0 Hlen).
+    unfold sum_mod. rewrite <- sum_mod_mod_aux. rewrite map_map. f_equal.
+    clear -HQ. induction HQ as [|q a ql ps Hg HF IH]; cbn; [reflexivity|].
+    destruct Hg as (_ & _ & (a0 & al & ->) & _). rewrite peval_at_0, IH. reflexivity.
+  - unfold pubkeys, S. rewrite map_map. apply map_ext. intro j. apply (sum_mod_psum t ps _ Hlen).
+Qed.
+
+End JointKeys.
+
+(* C07 agreement_keys: two participants with the same verdicts and the same dealer vectors
+   obtain the same group key and the same public shares; each private share is the public
+   share of its owner; all of them are values of ONE polynomial with t+1 coefficients, the
+   sum of the qualified dealers' polynomials *)
+Theorem agreement_keys (cf cf' : cfg) qs qs' oas :
+  c_n cf' = c_n cf -> c_t cf' = c_t cf -> (c_my cf < c_n cf)%nat -> (c_my cf' < c_n cf')%nat ->
+  Forall2 (inst_rel cf) qs oas -> Forall2 (inst_rel cf') qs' oas -> somes oas <> [] ->
+  let S := psum (c_t cf) (somes oas) in
+  exists x x' ys,
+    length S = Datatypes.S (c_t cf) /\
+    sum_up cf qs = Some (x, peval S 0, ys) /\ sum_up cf' qs' = Some (x', peval S 0, ys) /\
+    ys = pubkeys cf S /\
+    nth_error ys (c_my cf) = Some x /\ nth_error ys (c_my cf') = Some x'.
+Proof.
+  intros En Et Hp Hp' HR HR' Hne S. unfold S.
+  destruct (sum_up_is_sum_poly cf Hp qs oas HR Hne) as [E1 L1].
+  destruct (sum_up_is_sum_poly cf' Hp' qs' oas HR' Hne) as [E2 L2]. cbn zeta in *.
+  rewrite Et in E2.
+  assert (Epk : pubkeys cf' (psum (c_t cf) (somes oas)) = pubkeys cf (psum (c_t cf) (somes oas))).
+  { unfold pubkeys. rewrite En. reflexivity. }
+  rewrite Epk in E2.
+  exists (peval (psum (c_t cf) (somes oas)) (Z.of_nat (c_my cf) + 1)),
+         (peval (psum (c_t cf) (somes oas)) (Z.of_nat (c_my cf') + 1)), (pubkeys cf (psum (c_t cf) (somes oas))).
+  split; [exact L1|]. split; [exact E1|]. split; [exact E2|]. split; [reflexivity|]. split.
+  - apply pubkeys_nth_error. exact Hp.
+  - apply pubkeys_nth_error. rewrite <- En. exact Hp'.
+Qed.
+
+(* ---------------------------------------------------------------------- *)
+(* Joint-Feldman End: same verdicts => same outcome                         *)
+(* ---------------------------------------------------------------------- *)
+Definition is_none {X} (o : option X) : bool := match o with None => true | Some _ => false end.
+
+Lemma disq_count cf qs oas : Forall2 (inst_rel cf) qs oas ->
+  length (filter q_disq qs) = length (filter is_none oas).
+Proof.
+  induction 1 as [|q oa qs oas Hr HF IH]; cbn; [reflexivity|].
+  destruct oa as [a|]; cbn in Hr.
+  - destruct Hr as (Hd & _). rewrite Hd. exact IH.
+  - rewrite Hr. cbn. f_equal. exact IH.
+Qed.
+
+Lemma somes_count {X} (oas : list (option X)) :
+  (length (somes oas) + length (filter is_none oas) = length oas)%nat.
+Proof. induction oas as [|[x|] oas IH]; cbn; lia. Qed.
+
+(* what End returns once its first loop is done *)
+Definition joint_outcome (cf : cfg) (qs : list qinst) : result :=
+  let dq := length (filter q_disq qs) in
+  if (c_t cf <? dq)%nat || (c_n cf - dq <=? c_t cf)%nat then RFailure
+  else match sum_up cf qs with
+       | None => RPanic
+       | Some (x, Y, ys) => if x =? 0 then RFailure else if Y =? 0 then RFailure else RKeys x Y ys
+       end.
+
+Lemma joint_end_outcome cf s qs ev :
+  j_jrun s = true -> jend_loop cf 0 (j_insts s) = (qs, ev, Some (length (filter q_disq qs))) ->
+  snd (fst (joint_end cf s)) = joint_outcome cf qs.
+Proof.
+  intros Hj HL. unfold joint_end, joint_outcome. rewrite Hj. cbn [negb]. rewrite HL.
+  destruct ((c_t cf <? length (filter q_disq qs))%nat || (c_n cf - length (filter q_disq qs) <=? c_t cf)%nat); [reflexivity|].
+  destruct (sum_up cf qs) as [[[x Y] ys]|]; [|reflexivity].
+  destruct (x =? 0); [reflexivity|]. destruct (Y =? 0); reflexivity.
+Qed.
+
+(* C07 agreement_outcome (Joint-Feldman): two honest participants whose instances carry the same
+   verdicts and the same dealer vectors either both fail or both return the same group key
+   and public shares - unless the summed share of exactly one of them is zero, in which case
+   that participant alone returns a dkg-failure (hypotheses Hx, Hx') *)
+Theorem agreement_outcome_joint (cf cf' : cfg) qs qs' oas :
+  c_n cf' = c_n cf -> c_t cf' = c_t cf -> (c_my cf < c_n cf)%nat -> (c_my cf' < c_n cf')%nat ->
+  length oas = c_n cf ->
+  Forall2 (inst_rel cf) qs oas -> Forall2 (inst_rel cf') qs' oas ->
+  let S := psum (c_t cf) (somes oas) in
+  peval S (Z.of_nat (c_my cf) + 1) <> 0 -> peval S (Z.of_nat (c_my cf') + 1) <> 0 ->
+  (joint_outcome cf qs = RFailure /\ joint_outcome cf' qs' = RFailure) \/
+  (exists x x' ys,
+     joint_outcome cf qs = RKeys x (peval S 0) ys /\ joint_outcome cf' qs' = RKeys x' (peval S 0) ys /\
+     ys = pubkeys cf S /\ nth_error ys (c_my cf) = Some x /\ nth_error ys (c_my cf') = Some x' /\
+     length S = Datatypes.S (c_t cf)).
+Proof.
+  intros En Et Hp Hp' Hlen HR HR' S Hx Hx'.
+  unfold joint_outcome. rewrite (disq_count cf qs oas HR), (disq_count cf' qs' oas HR'), En, Et.
+  set (dq := length (filter is_none oas)).
+  destruct ((c_t cf <? dq)%nat || (c_n cf - dq <=? c_t cf)%nat) eqn:Ef; [left; auto|].
+  apply orb_false_iff in Ef as [_ Ef]. apply Nat.leb_gt in Ef.
+  assert (Hne : somes oas <> []).
+  { intro E. pose proof (somes_count oas) as Hc. rewrite E, Hlen in Hc. cbn in Hc. fold dq in Hc. lia. }
+  destruct (agreement_keys cf cf' qs qs' oas En Et Hp Hp' HR HR' Hne) as (x & x' & ys & L & E1 & E2 & Eys & N1 & N2).
+  fold S in L, E1, E2, Eys. rewrite E1, E2.
+  assert (Ex : x = peval S (Z.of_nat (c_my cf) + 1)).
+  { rewrite Eys in N1. rewrite (pubkeys_nth_error cf S (c_my cf) Hp) in N1. inversion N1. reflexivity. }
+  assert (Ex' : x' = peval S (Z.of_nat (c_my cf') + 1)).
+  { rewrite Eys in N2. rewrite (pubkeys_nth_error cf S (c_my cf')) in N2 by (rewrite <- En; exact Hp'). inversion N2. reflexivity. }
+  destruct (x =? 0) eqn:E0; [apply Z.eqb_eq in E0; congruence|].
+  destruct (x' =? 0) eqn:E0'; [apply Z.eqb_eq in E0'; congruence|].
+  destruct (peval S 0 =? 0); [left; auto|right].
+  exists x, x', ys. repeat split; auto.
+Qed.
